@@ -67,6 +67,8 @@ class BaseEngine(abc.ABC):
         self.samples = None
         #: Dict[Any, List]: the measurement results as a dictionary with measured modes as keys
         self.samples_dict = None
+        #: Dict[int, Any]: latest value measured on each mode over all program segments run so far
+        self._measured_vals = {}
 
         if isinstance(backend, str):
             self.backend_name = backend
@@ -134,6 +136,7 @@ class BaseEngine(abc.ABC):
             p._clear_regrefs()
         self.run_progs.clear()
         self.samples = None
+        self._measured_vals = {}
 
     def print_applied(self, print_fn=print):
         """Print all the Programs run since the backend was initialized.
@@ -297,15 +300,18 @@ class BaseEngine(abc.ABC):
                 # We cannot copy from prev directly because it could be used in more than one
                 # engine.
                 # (self.samples has one row per shot; the values per measured mode
-                # are in self.samples_dict, whose keys are the mode indices)
-                for k, v in (self.samples_dict or {}).items():
-                    p.reg_refs[k].val = v[-1]
+                # are in self.samples_dict, whose keys are the mode indices; it only holds
+                # the modes measured in the latest segment, so the values are accumulated
+                # over the segments in self._measured_vals)
+                for k, v in self._measured_vals.items():
+                    p.reg_refs[k].val = v
 
             # bind free parameters to their values
             p.bind_params(args)
             p.lock()
 
             _, self.samples, self.samples_dict = self._run_program(p, **kwargs)
+            self._measured_vals.update({k: v[-1] for k, v in (self.samples_dict or {}).items()})
             self.run_progs.append(p)
 
             if isinstance(p, TDMProgram) and received_rolled:
